@@ -2,7 +2,7 @@ import SaModel.Build.Push
 import SaModel.Spec.Interp
 /-
 Inversion lemmas for `pushMapOps` (a raw `serialize_key` / `serialize_value` stream into a `MapBuilder`, with the
-`key_pending` flag of repo fix bcc3416): what a SUCCESSFUL step says about the flag and the sub-steps.  Shared by the
+`key_pending` flag of repo fix eafdf15): what a SUCCESSFUL step says about the flag and the sub-steps.  Shared by the
 mutual recursions of C01 / C03 / C10 / C16 / C18 over the serde value, so that they do not unfold the flag tests.
 -/
 namespace SaModel.Build
